@@ -24,7 +24,7 @@ Traces == JsonDeserialize(IOEnv.TRACE_FILE)
 
 VARIABLES tid, l,
           mref, mhasref, mlastok, macc, mid, mflags, mcfg, msess,          \* monitor: blocks
-          mlisten, mconn, msamples, mlsamples, myields, mdisc, mstopped, mearly, mdrained,   \* monitor: SyncLogger
+          mlisten, mconn, msamples, mlsamples, myields, mdisc, mstopped, mearly, mdrained, muser,   \* monitor: SyncLogger
           bad, badAt, cok, cokAt,
           toc, conf, phase, cur, tpl, lvars, ldef, valid, cid, hascf, added, started, pending, blocks,
           idctr, link, dev, acks, inject, sync, nops, nfaults, ndata, nlate, layout, ref, hasref, lastok, obs
@@ -47,7 +47,7 @@ Ev == T.ev[l]
 CurToc == T.tocs[msess]          \* the device table of the current session
 
 monvars == <<mref, mhasref, mlastok, macc, mid, mflags, mcfg, msess, mlisten, mconn, msamples, mlsamples, myields, mdisc, mstopped,
-             mearly, mdrained>>
+             mearly, mdrained, muser>>
 specvars == <<toc, conf, phase, cur, tpl, lvars, ldef, valid, cid, hascf, added, started, pending, blocks,
               idctr, link, dev, acks, inject, sync, nops, nfaults, ndata, nlate, layout, ref, hasref, lastok, obs>>
 
@@ -60,7 +60,7 @@ Init == /\ tid \in 1..Len(Traces) /\ l = 1
         /\ mcfg = [c \in Cs |-> [period |-> Traces[tid].cfgs[c].period, vars |-> Traces[tid].cfgs[c].vars]]
         /\ msess = 1
         /\ mlisten = FALSE /\ mconn = FALSE /\ msamples = <<>> /\ mlsamples = <<>> /\ myields = <<>> /\ mdisc = FALSE /\ mstopped = FALSE
-        /\ mearly = FALSE /\ mdrained = FALSE
+        /\ mearly = FALSE /\ mdrained = FALSE /\ muser = FALSE
         /\ bad = "ok" /\ badAt = 0 /\ cok = TRUE /\ cokAt = 0
         /\ toc = Traces[tid].tocs[1]
         /\ conf = [c \in Cs |-> [period |-> Traces[tid].cfgs[c].period, vars |-> Traces[tid].cfgs[c].vars]]
@@ -113,7 +113,7 @@ MAdd ==
           /\ macc' = IF ok THEN [macc EXCEPT ![c] = TRUE] ELSE macc
           /\ mid' = IF ok THEN [mid EXCEPT ![c] = Ev.id] ELSE mid
           /\ mflags' = Ev.after
-          /\ UNCHANGED <<mcfg, msess, mlisten, mconn, msamples, mlsamples, myields, mdisc, mstopped, mearly, mdrained>>
+          /\ UNCHANGED <<mcfg, msess, mlisten, mconn, msamples, mlsamples, myields, mdisc, mstopped, mearly, mdrained, muser>>
           /\ Conform(/\ IF Ev.via = "sync" THEN D!SyncConnect1 ELSE D!AddConfig(c)
                      /\ obs'.res = Ev.res
                      /\ P!Keys(lvars'[c]) = P!Keys(Ev.vars) /\ ldef'[c] = Ev.ldef
@@ -130,7 +130,7 @@ MOp ==
                   ELSE Quiet)
           /\ mflags' = Ev.after
           /\ UNCHANGED <<mref, mhasref, mlastok, macc, mid, mcfg, msess, mlisten, mconn, msamples, mlsamples, myields, mdisc, mstopped,
-                         mearly, mdrained>>
+                         mearly, mdrained, muser>>
           /\ Conform(/\ CASE Ev.e = "start" -> (IF Ev.via = "sync" THEN D!SyncConnect2 ELSE D!Start(c))
                           [] Ev.e = "stop" -> D!Stop(c)
                           [] OTHER -> D!Delete(c)
@@ -147,7 +147,7 @@ MAck ==
                                                     Ev.before[c], Ev.after[c], CbsOf(c))]))
     /\ mflags' = Ev.after
     /\ UNCHANGED <<mref, mhasref, mlastok, macc, mid, mcfg, msess, mlisten, mconn, msamples, mlsamples, myields, mdisc, mstopped,
-                   mearly, mdrained>>
+                   mearly, mdrained, muser>>
     /\ Conform(/\ acks # <<>> /\ Head(acks) = [cmd |-> Ev.cmd, id |-> Ev.id, st |-> Ev.st_ack]
                /\ D!Deliver
                /\ obs'.sent = Ev.sent
@@ -177,7 +177,7 @@ MDisc ==
     /\ mdisc' = (mdisc \/ Ev.sync)
     /\ mdrained' = IF Ev.sync /\ ~mdisc THEN Ev.drained ELSE mdrained
     /\ mlisten' = IF Ev.sync THEN FALSE ELSE mlisten
-    /\ UNCHANGED <<mref, mhasref, mlastok, macc, mid, mcfg, msess, mconn, msamples, mlsamples, myields, mstopped, mearly>>
+    /\ UNCHANGED <<mref, mhasref, mlastok, macc, mid, mcfg, msess, mconn, msamples, mlsamples, myields, mstopped, mearly, muser>>
     /\ Conform(D!CloseLink /\ StMatch)
 MReconnect ==
     /\ Ev.e = "reconnect"
@@ -185,7 +185,7 @@ MReconnect ==
     /\ macc' = [c \in Cs |-> FALSE]
     /\ msess' = msess + 1
     /\ mflags' = Ev.after
-    /\ UNCHANGED <<mref, mhasref, mlastok, mid, mcfg, mlisten, mconn, msamples, mlsamples, myields, mdisc, mstopped, mearly, mdrained>>
+    /\ UNCHANGED <<mref, mhasref, mlastok, mid, mcfg, mlisten, mconn, msamples, mlsamples, myields, mdisc, mstopped, mearly, mdrained, muser>>
     /\ Conform(D!OpenLink(T.tocs[msess + 1]) /\ StMatch)
 
 \* add_variable / add_memory on a LogConfig that was added before: the next successful add_config fixes the
@@ -195,7 +195,7 @@ MAddVar ==
     /\ mcfg' = [mcfg EXCEPT ![Ev.c].vars = Append(@, Ev.v)]
     /\ mhasref' = [mhasref EXCEPT ![Ev.c] = FALSE]
     /\ UNCHANGED <<bad, badAt, mref, mlastok, macc, mid, mflags, msess, mlisten, mconn, msamples, mlsamples, myields,
-                   mdisc, mstopped, mearly, mdrained>>
+                   mdisc, mstopped, mearly, mdrained, muser>>
     /\ Conform(D!AddVarLate(Ev.c, Ev.v))
 
 MEnv ==
@@ -204,12 +204,26 @@ MEnv ==
     /\ Conform(IF Ev.e = "inject" THEN D!Inject(Ev.status) ELSE D!DropAck)
 
 \* ---- SyncLogger
-MSBegin == /\ Ev.e \in {"sbegin", "sconnected", "sfail"}
-           /\ mlisten' = (Ev.e # "sfail")
-           /\ mconn' = (mconn \/ Ev.e = "sconnected")
-           /\ UNCHANGED <<bad, badAt, cok, cokAt, mref, mhasref, mlastok, macc, mid, mflags, mcfg, msess, msamples, mlsamples, myields,
-                          mdisc, mstopped, mearly, mdrained>>
+\* One SyncLogger object may be connected several times (sbegin ... sconnected|sfail).  The flags of a
+\* connection (disconnect seen, iteration ended, ...) are judged when the next connect() begins and at the end
+\* of the trace; the sample sequences run on over all connections of the object (the queue is never cleared).
+ConnClause(drained) == IF T.sync /\ mconn
+                       THEN P!SyncClause(mlsamples, msamples, myields, mdisc, mstopped, mearly, drained)
+                       ELSE "ok"
+MSBegin == /\ Ev.e = "sbegin"
+           /\ Fail(ConnClause(mdisc /\ mdrained))
+           /\ mlisten' = TRUE /\ mconn' = FALSE /\ mdisc' = FALSE /\ mstopped' = FALSE /\ mearly' = FALSE
+           /\ mdrained' = FALSE /\ muser' = FALSE
+           /\ UNCHANGED <<cok, cokAt, mref, mhasref, mlastok, macc, mid, mflags, mcfg, msess, msamples, mlsamples, myields>>
            /\ UNCHANGED specvars
+\* connect() returned / raised; "sdisc": the user called SyncLogger.disconnect()
+MSConn == /\ Ev.e \in {"sconnected", "sfail", "sdisc"}
+          /\ mlisten' = (Ev.e = "sconnected")
+          /\ mconn' = (mconn \/ Ev.e = "sconnected")
+          /\ muser' = (muser \/ Ev.e = "sdisc")
+          /\ UNCHANGED <<bad, badAt, cok, cokAt, mref, mhasref, mlastok, macc, mid, mflags, mcfg, msess, msamples, mlsamples, myields,
+                         mdisc, mstopped, mearly, mdrained>>
+          /\ UNCHANGED specvars
 \* "sample": data_received_cb delivered a sample of one of the SyncLogger's configurations (logged by an
 \* observer registered before the logger's callback); "lsample": the logger's own callback got it
 MSample == /\ Ev.e \in {"sample", "lsample"}
@@ -217,29 +231,26 @@ MSample == /\ Ev.e \in {"sample", "lsample"}
                            THEN Append(msamples, Ev.s) ELSE msamples
            /\ mlsamples' = IF Ev.e = "lsample" THEN Append(mlsamples, Ev.s) ELSE mlsamples
            /\ UNCHANGED <<bad, badAt, cok, cokAt, mref, mhasref, mlastok, macc, mid, mflags, mcfg, msess, mlisten, mconn, myields,
-                          mdisc, mstopped, mearly, mdrained>>
+                          mdisc, mstopped, mearly, mdrained, muser>>
            /\ UNCHANGED specvars
 MYield == /\ Ev.e = "yield"
           /\ myields' = Append(myields, Ev.s)
           /\ UNCHANGED <<bad, badAt, mref, mhasref, mlastok, macc, mid, mflags, mcfg, msess, mlisten, mconn, msamples, mlsamples, mdisc,
-                         mstopped, mearly, mdrained>>
+                         mstopped, mearly, mdrained, muser>>
           /\ Conform(D!SyncNext /\ sync'.yields = Append(sync.yields, Ev.s))
 MStop == /\ Ev.e = "sstop"
-         /\ mstopped' = TRUE /\ mearly' = (mearly \/ ~mdisc)
+         /\ mstopped' = TRUE /\ mearly' = (mearly \/ ~(mdisc \/ muser))
          /\ UNCHANGED <<bad, badAt, mref, mhasref, mlastok, macc, mid, mflags, mcfg, msess, mlisten, mconn, msamples, mlsamples, myields,
-                        mdisc, mdrained>>
+                        mdisc, mdrained, muser>>
          /\ Conform(D!SyncNext /\ sync'.st = "stopped")
 
 Step == /\ l <= Len(T.ev)
         /\ l' = l + 1 /\ UNCHANGED tid
-        /\ (MAdd \/ MAddVar \/ MOp \/ MAck \/ MData \/ MReconnect \/ MEnv \/ MSBegin \/ MSample \/ MDisc \/ MYield \/ MStop)
+        /\ (MAdd \/ MAddVar \/ MOp \/ MAck \/ MData \/ MReconnect \/ MEnv \/ MSBegin \/ MSConn \/ MSample \/ MDisc \/ MYield \/ MStop)
 
 Finish == /\ l = Len(T.ev) + 1
           /\ l' = l + 1
-          /\ LET s == IF T.sync /\ mconn
-                      THEN P!SyncClause(mlsamples, msamples, myields, mdisc, mstopped, mearly,
-                                        IF mdisc THEN mdrained ELSE T.idle_end)
-                      ELSE "ok"
+          /\ LET s == ConnClause(IF mdisc THEN mdrained ELSE T.idle_end)
                  b == IF bad # "ok" THEN bad ELSE s
              IN PrintT(<<"VERDICT", T.id, b, IF bad # "ok" THEN badAt ELSE l, cok, cokAt>>)
           /\ UNCHANGED <<tid, bad, badAt, cok, cokAt>> /\ UNCHANGED monvars /\ UNCHANGED specvars
